@@ -541,8 +541,9 @@ example : ∃ out, PM.parseStream ((execB exEnvX none {} (.cons (.addDests [1, 2
 /-! ## The explicit spelling of an action
 
 `x = start_action(sp)` (or `start_task`), then any number of `with x.context(): body` /
-`x.run(lambda: body)` segments whose bodies are structured, do not rebind `x` and end normally, then
-`x.finish()` / `x.finish(exc)` — all adjacent in one block — is part of `Block.structured`
+`x.run(lambda: body)` segments whose bodies are structured, do not rebind `x` and end normally,
+`x.log(..)` / `Message.log(action=x)` and `x.add_success_fields(..)` calls between them, then
+`x.finish()` / `x.finish(exc)` or `with x: body` — all adjacent in one block — is part of `Block.structured`
 (`Block.structuredX`), so `emitted_is_forest`, `roundtrip`, `roundtrip_file` cover it.  A segment body that
 raises would leave the action unfinished (the exception leaves the block before `finish`); that is
 excluded through the decidable `wf` (`denX`: `wf = false`), the parser's treatment of unfinished
@@ -577,6 +578,21 @@ theorem explicit_same_as_with (env : Env) (cur : Option Exc) (inAct : Bool) (x :
     simp only [closeR, withR, finRes, extOut, hok, F.append, Bool.and_assoc]
   · simp only [if_true, denX_run, segR, hok, denX_finish, hw]
     simp only [closeR, withR, finRes, extOut, hok, F.append, Bool.and_assoc]
+
+/-- **handle_same_as_with.**  `x = start_action(sp); with x: body` followed by `rest` has the same
+denotation as `with start_action(sp): body` followed by `rest` — whatever the body does (if it raises,
+the node is closed as failed and the exception goes on, as for the `with` block). -/
+theorem handle_same_as_with (env : Env) (cur : Option Exc) (inAct : Bool) (x : Nat) (task : Bool) (sp : Spec)
+    (body rest : Block) (d : DS) (s : Fields) :
+    denB env cur inAct (.cons (.startAs x task sp) (.cons (.withHandle x body) rest)) d s =
+      denB env cur inAct (.cons (.withAction task sp body) rest) d s := by
+  rw [denB_start, denB_cons _ _ _ _ _ _ _ (by intro _ _ _ h; cases h), denS_with, denX_with]
+  have hco : ∀ rb : R, (closeW env (task || !inAct) sp d s .nil rb).out = rb.out := fun _ => rfl
+  have hwo : ∀ rb : R, (withR env (task || !inAct) sp d s rb).out = rb.out := fun _ => rfl
+  simp only [hco, hwo]
+  cases ho : (denB env cur true body
+      { tick := d.tick + 1, nu := if (task || !inAct) = true then d.nu + 1 else d.nu, ex := d.ex } []).out <;>
+    simp only [closeW, closeR, withR, ho, F.append, Bool.and_assoc, Bool.and_true]
 
 /-- the explicit spelling, at top level and nested, succeeding and failing: an action `a` spelled
 `x0 = start_action; with x0.context(): …; x0.finish()` holding a message, a `with` block and an action
@@ -643,6 +659,62 @@ example : ∃ out, PM.parseStream ((execB exEnvX none {} (.cons (.addDests [1, 2
     Reconstructs (specOf (denB exEnvX none false exProgE ⟨0, 0, 0⟩ []).f) out := by
   obtain ⟨l, h1, _, _, _, hp⟩ := roundtrip (ds := [1, 2]) exOKX exProgE exHypsE.1 exHypsE.2.1 exHypsE.2.2
   have : (execB exEnvX none {} (.cons (.addDests [1, 2]) exProgE)).1.stage.filterMap toPMsg = l := by
+    have := congrArg (List.filterMap id) h1
+    simpa [List.filterMap_map, Function.comp_def] using this
+  rw [this]
+  exact hp _ (List.reverse_perm l)
+
+/-- `x.log(..)`, `x.add_success_fields(..)` and `with x:` on a handle: action `a` gets a message through
+its handle before and after a context segment, success fields through the handle, and is closed by
+`with x0:` whose body fails; a task is started and entered later with `with x1:` -/
+def exProgH : Block :=
+  .cons (.tryCatch
+    (.cons (.startAs 0 false { atype := "a", sers := some ([], [("y", 8)]) })
+    (.cons (.logTo 0 { mtype := "first", fields := [("k", .str "v")], sers := some [("k", 5)] })
+    (.cons (.inContext 0 (.cons (.log { mtype := "m" }) .nil))
+    (.cons (.addSuccess (some 0) [("y", .nat 2)])
+    (.cons (.logTo 0 { mtype := "second" })
+    (.cons (.withHandle 0 (.cons (.log { mtype := "in-with" }) (.cons (.raise 2) .nil)))
+    (.cons (.log { mtype := "never" }) .nil)))))))
+    (.cons .writeTraceback .nil))
+  (.cons (.startAs 1 true { atype := "t" })
+  (.cons (.withHandle 1 (.cons (.log { mtype := "t1" }) .nil))
+  (.cons (.log { mtype := "outside" }) .nil)))
+
+theorem exHypsH : exProgH.structured false false = true ∧ (denB exEnvX none false exProgH ⟨0, 0, 0⟩ []).wf = true ∧
+    F.clean (denB exEnvX none false exProgH ⟨0, 0, 0⟩ []).f = true := by decide +kernel
+
+/-- the same with `with` blocks -/
+def exProgHW : Block :=
+  .cons (.tryCatch
+    (.cons (.withAction false { atype := "a", sers := some ([], [("y", 8)]) }
+      (.cons (.log { mtype := "first", fields := [("k", .str "v")], sers := some [("k", 5)] })
+      (.cons (.log { mtype := "m" })
+      (.cons (.addSuccess none [("y", .nat 2)])
+      (.cons (.log { mtype := "second" })
+      (.cons (.log { mtype := "in-with" })
+      (.cons (.raise 2) .nil)))))))
+    (.cons (.log { mtype := "never" }) .nil))
+    (.cons .writeTraceback .nil))
+  (.cons (.withAction true { atype := "t" } (.cons (.log { mtype := "t1" }) .nil))
+  (.cons (.log { mtype := "outside" }) .nil))
+
+-- same 11 dicts on the wire, in the same order; the failed end of "a" carries `Leaf`'s extracted field
+example : (execB exEnvX none {} (.cons (.addDests [1, 2]) exProgH)).1.stage =
+      (execB exEnvX none {} (.cons (.addDests [1, 2]) exProgHW)).1.stage ∧
+    (execB exEnvX none {} (.cons (.addDests [1, 2]) exProgH)).1.stage.length = 11 ∧
+    ((execB exEnvX none {} (.cons (.addDests [1, 2]) exProgH)).1.stage[5]?.bind (·.get? "leaf")) = some (.nat 1) ∧
+    ((execB exEnvX none {} (.cons (.addDests [1, 2]) exProgH)).1.stage[1]?.bind (·.get? "k")) = some (.serOut 5 0 (.str "v")) := by
+  decide +kernel
+
+example : (execB exEnvX none {} (.cons (.addDests [1, 2]) exProgH)).1.stage =
+    (F.tops (denB exEnvX none false exProgH ⟨0, 0, 0⟩ []).f).flatMap (fun e => T.top exEnvX exσ e.1 e.2) :=
+  (emitted_is_forest exOKX (by decide) exProgH exHypsH.1 exHypsH.2.1).1
+
+example : ∃ out, PM.parseStream ((execB exEnvX none {} (.cons (.addDests [1, 2]) exProgH)).1.stage.filterMap toPMsg).reverse = .ok out ∧
+    Reconstructs (specOf (denB exEnvX none false exProgH ⟨0, 0, 0⟩ []).f) out := by
+  obtain ⟨l, h1, _, _, _, hp⟩ := roundtrip (ds := [1, 2]) exOKX exProgH exHypsH.1 exHypsH.2.1 exHypsH.2.2
+  have : (execB exEnvX none {} (.cons (.addDests [1, 2]) exProgH)).1.stage.filterMap toPMsg = l := by
     have := congrArg (List.filterMap id) h1
     simpa [List.filterMap_map, Function.comp_def] using this
   rw [this]
